@@ -142,6 +142,7 @@ var orderFn = "(fun c => match c with P224 => 2695994666715063979466701508701962
 
 // arbitrary bytes through gopki's parser and the model's; [hint] supplies the public point for the scalar inside
 func parseCase(tag string, der []byte, hint any) {
+	hostile := !strings.HasSuffix(tag, "/stdlib-form")
 	k, err := func() (k any, err error) {
 		defer func() {
 			if r := recover(); r != nil {
@@ -168,7 +169,7 @@ func parseCase(tag string, der []byte, hint any) {
 		pub = cqBytes(pointBytes(ek.Curve, ek.X, ek.Y))
 	}
 	fmt.Fprintf(out, "CASE %s %v\n", tag, err == nil)
-	fmt.Fprintf(out, "COQ P mkParseCase %s %s %s %s\n", cqBytes(der), pub, orderFn, res)
+	fmt.Fprintf(out, "COQ P mkParseCase %s %s %s %s %s\n", bs(hostile), cqBytes(der), pub, orderFn, res)
 }
 
 func streamPkcs8() {
